@@ -211,6 +211,8 @@ def build_stream(spec, src, log=None):
                 return_exceptions=stg.get('rexc', False),
                 **kw,
             )
+        elif op == 'fifo':
+            s = Stream(FifoStage(s, stage_fn(stg, idx, log), stg['capacity'], stg.get('pool', 2), stg.get('rx', False), stg.get('rexc', False), pre_fn(stg, idx)))
         elif op == 'batch':
             s.batch(stg['n'])
         elif op == 'unbatch':
@@ -220,6 +222,22 @@ def build_stream(spec, src, log=None):
         else:
             raise ValueError(op)
     return s
+
+
+class FifoStage:
+    """a bare fifo_stream over its own thread pool, usable as a Stream source (capacity 1 is reachable only this way)"""
+
+    def __init__(self, prev, fn, capacity, pool, rx, rexc, pre):
+        self.prev, self.fn, self.capacity, self.pool, self.rx, self.rexc, self.pre = prev, fn, capacity, pool, rx, rexc, pre
+
+    def __iter__(self):
+        from mpservice.concurrent.futures import ThreadPoolExecutor
+        from mpservice.streamer import fifo_stream
+
+        with ThreadPoolExecutor(self.pool) as pool:
+            fn = self.fn
+            kw = {} if self.pre is None else {'preprocessor': self.pre}
+            yield from fifo_stream(self.prev, lambda x: pool.submit(fn, x, loud_exception=False), capacity=self.capacity, return_x=self.rx, return_exceptions=self.rexc, **kw)
 
 
 # ----------------------------------------------------------------- reference (sequential meaning)
@@ -260,7 +278,7 @@ def _ref_stage(it, stg, idx):
             f(x)
             if key_of(x) % stg['mod'] != 0:
                 yield x
-    elif op in ('parmap', 'parmap_async'):
+    elif op in ('parmap', 'parmap_async', 'fifo'):
         f = stage_fn(stg, idx, None, timed=False)
         p = pre_fn(stg, idx)
         for x in it:
